@@ -190,3 +190,23 @@ fn calendar_conversion_us_bounded() {
     let cr: chrono::DateTime<chrono::Utc> = dt.try_into().ok().unwrap();
     assert!(cr.timestamp_micros() == us);
 }
+
+// the reverse direction: a calendar value OUTSIDE the window an i64 of nanoseconds can hold (year 2300) converts to a second /
+// millisecond / microsecond date-time denoting the same instant
+const Y2300_S: i64 = 10_413_792_000;
+#[kani::proof]
+fn calendar_conversion_from_cr_s_bounded() {
+    let d: i64 = kani::any();
+    kani::assume(-4096 <= d && d <= 4096);
+    let cr = chrono::DateTime::<chrono::Utc>::from_timestamp(Y2300_S + d, 0).unwrap();
+    let dt: DateTime<unit::Second> = cr.into();
+    assert!(dt.into_i64() == Y2300_S + d);
+}
+#[kani::proof]
+fn calendar_conversion_from_cr_ms_bounded() {
+    let d: i64 = kani::any();
+    kani::assume(-4096 <= d && d <= 4096);
+    let cr = chrono::DateTime::<chrono::Utc>::from_timestamp_millis(Y2300_S * 1000 + d).unwrap();
+    let dt: DateTime<unit::Millisecond> = cr.into();
+    assert!(dt.into_i64() == Y2300_S * 1000 + d);
+}
